@@ -326,6 +326,188 @@ Theorem clef_codes :
 Proof. exact tab_clef_codes_ok. Qed.
 Print Assumptions clef_codes.
 
+(* ---- T1 tie: the definitions T1_music.f are REGENERATED FROM THE SOURCE TEXT of the functions on every run
+   (harness/t1.py, a fail-closed Python-ast -> Gallina translator; Gen/T1_music.v names file, function and the
+   sha1 of each source segment).  First the equivalence with the hand model (spec_f of Model/T1_spec.v is the
+   hand model at the types of the translation), for ALL arguments unless a guard is stated; then the unbounded
+   theorems above, restated about the translated definitions.  If a function is outside the translator's subset
+   in this run its T1 name is a stub equal to spec_f (the evidence file says so): the statement is then about
+   the hand model only. ---- *)
+From PV Require Import Lib.Py Model.T1_spec.
+From PV Require Gen.T1_music Proofs.T1_core Proofs.C12_t1.
+Theorem t1_step2pc_eq : forall s a,
+  T1_music.step2pc s a = spec_step2pc s a.
+Proof. exact PV.Proofs.T1_core.t1_step2pc_eq. Qed.
+Print Assumptions t1_step2pc_eq.
+
+Theorem t1_Interval_semitones_eq : forall iv,
+  T1_music.Interval_semitones iv = spec_Interval_semitones iv.
+Proof. exact PV.Proofs.T1_core.t1_Interval_semitones_eq. Qed.
+Print Assumptions t1_Interval_semitones_eq.
+
+Theorem t1_Interval_validate_eq : forall iv,
+  T1_music.Interval_validate iv = spec_Interval_validate iv.
+Proof. exact PV.Proofs.T1_core.t1_Interval_validate_eq. Qed.
+Print Assumptions t1_Interval_validate_eq.
+
+Theorem t1_pitch_spelling_to_midi_pitch_eq : forall s a o,
+  T1_music.pitch_spelling_to_midi_pitch s a o = spec_pitch_spelling_to_midi_pitch s a o.
+Proof. exact PV.Proofs.T1_core.t1_pitch_spelling_to_midi_pitch_eq. Qed.
+Print Assumptions t1_pitch_spelling_to_midi_pitch_eq.
+
+Theorem t1_find_smallest_unit_eq : forall fuel divs,
+  T1_music.find_smallest_unit fuel divs = spec_find_smallest_unit fuel divs.
+Proof. exact PV.Proofs.C12_t1.t1_find_smallest_unit_eq. Qed.
+Print Assumptions t1_find_smallest_unit_eq.
+
+Theorem t1_pitch_spelling_to_note_name_eq : forall s a o,
+  -3 <= a <= 3 ->
+  T1_music.pitch_spelling_to_note_name s a o = spec_pitch_spelling_to_note_name s a o.
+Proof. exact PV.Proofs.C12_t1.t1_pitch_spelling_to_note_name_eq. Qed.
+Print Assumptions t1_pitch_spelling_to_note_name_eq.
+
+Theorem t1_key_mode_to_int_eq : forall m,
+  T1_music.key_mode_to_int m = spec_key_mode_to_int m.
+Proof. exact PV.Proofs.C12_t1.t1_key_mode_to_int_eq. Qed.
+Print Assumptions t1_key_mode_to_int_eq.
+
+Theorem t1_key_int_to_mode_eq : forall m,
+  T1_music.key_int_to_mode m = spec_key_int_to_mode m.
+Proof. exact PV.Proofs.C12_t1.t1_key_int_to_mode_eq. Qed.
+Print Assumptions t1_key_int_to_mode_eq.
+
+Theorem t1_clef_sign_to_int_eq : forall s,
+  T1_music.clef_sign_to_int s = spec_clef_sign_to_int s.
+Proof. exact PV.Proofs.C12_t1.t1_clef_sign_to_int_eq. Qed.
+Print Assumptions t1_clef_sign_to_int_eq.
+
+Theorem t1_clef_int_to_sign_eq : forall c,
+  T1_music.clef_int_to_sign c = spec_clef_int_to_sign c.
+Proof. exact PV.Proofs.C12_t1.t1_clef_int_to_sign_eq. Qed.
+Print Assumptions t1_clef_int_to_sign_eq.
+
+Theorem t1_fifths_mode_to_key_name_eq : forall f m,
+  T1_music.fifths_mode_to_key_name f m = spec_fifths_mode_to_key_name f m.
+Proof. exact PV.Proofs.C12_t1.t1_fifths_mode_to_key_name_eq. Qed.
+Print Assumptions t1_fifths_mode_to_key_name_eq.
+
+Theorem t1_key_name_to_fifths_mode_eq : forall n,
+  In n (C12.major_keys ++ C12.minor_keys) ->
+  T1_music.key_name_to_fifths_mode n = spec_key_name_to_fifths_mode n.
+Proof. exact PV.Proofs.C12_t1.t1_key_name_to_fifths_mode_eq. Qed.
+Print Assumptions t1_key_name_to_fifths_mode_eq.
+
+Theorem t1_ensure_pitch_spelling_format_eq : forall s a o,
+  T1_music.ensure_pitch_spelling_format s a o = spec_ensure_pitch_spelling_format s a o.
+Proof. exact PV.Proofs.C12_t1.t1_ensure_pitch_spelling_format_eq. Qed.
+Print Assumptions t1_ensure_pitch_spelling_format_eq.
+
+Theorem t1_midi_pitch_to_pitch_spelling_eq : forall m,
+  T1_music.midi_pitch_to_pitch_spelling m = spec_midi_pitch_to_pitch_spelling T1_music.DUMMY_PS_BASE_CLASS m.
+Proof. exact PV.Proofs.C12_t1.t1_midi_pitch_to_pitch_spelling_eq. Qed.
+Print Assumptions t1_midi_pitch_to_pitch_spelling_eq.
+
+(* symbolic_to_numeric_duration read over exact rationals (the code computes floats); dots 0..3 (and -4..-1, which
+   Python's negative indices wrap), an absent or zero tuplet count reads as 1 *)
+Theorem t1_symbolic_to_numeric_duration_eq : forall sd divs,
+  qopt_equiv (T1_music.symbolic_to_numeric_duration sd divs) (spec_symbolic_to_numeric_duration sd divs).
+Proof. exact PV.Proofs.C12_t1.t1_symbolic_to_numeric_duration_eq. Qed.
+Print Assumptions t1_symbolic_to_numeric_duration_eq.
+
+(* midi_ticks_to_seconds read over exact rationals (the code computes floats); ppq = 0 raises *)
+Theorem t1_midi_ticks_to_seconds_eq : forall ticks mpq ppq,
+  qopt_equiv (T1_music.midi_ticks_to_seconds ticks mpq ppq) (spec_midi_ticks_to_seconds ticks mpq ppq).
+Proof. exact PV.Proofs.C12_t1.t1_midi_ticks_to_seconds_eq. Qed.
+Print Assumptions t1_midi_ticks_to_seconds_eq.
+
+(* ticks -> seconds by the translated definition -> ticks by the model's rounding: the identity (all ppq, mpq > 0, all k) *)
+Theorem t1_tick_roundtrip : forall ppq mpq k, 0 < ppq -> 0 < mpq ->
+  exists t, T1_music.midi_ticks_to_seconds k mpq ppq = Some t /\ sec_to_tick ppq mpq t = k.
+Proof. exact PV.Proofs.C12_t1.t1_tick_roundtrip. Qed.
+Print Assumptions t1_tick_roundtrip.
+
+Theorem t1_Tuplet_duration_multiplier_eq : forall t,
+  qopt_equiv (T1_music.Tuplet_duration_multiplier t) (spec_Tuplet_duration_multiplier t).
+Proof. exact PV.Proofs.C12_t1.t1_Tuplet_duration_multiplier_eq. Qed.
+Print Assumptions t1_Tuplet_duration_multiplier_eq.
+
+Theorem t1_Note_alter_sign_eq : forall x,
+  T1_music.Note_alter_sign x = spec_Note_alter_sign x.
+Proof. exact PV.Proofs.C12_t1.t1_Note_alter_sign_eq. Qed.
+Print Assumptions t1_Note_alter_sign_eq.
+
+Theorem t1_Note_midi_pitch_eq : forall x,
+  T1_music.Note_midi_pitch x = spec_Note_midi_pitch x.
+Proof. exact PV.Proofs.C12_t1.t1_Note_midi_pitch_eq. Qed.
+Print Assumptions t1_Note_midi_pitch_eq.
+
+Theorem t1_KeySignature_name_eq : forall k,
+  T1_music.KeySignature_name k = spec_KeySignature_name k.
+Proof. exact PV.Proofs.C12_t1.t1_KeySignature_name_eq. Qed.
+Print Assumptions t1_KeySignature_name_eq.
+
+Theorem t1_ps_to_midi_C4 : T1_music.pitch_spelling_to_midi_pitch "C" None 4 = Some 60.
+Proof. exact PV.Proofs.C12_t1.t1_ps_to_midi_C4. Qed.
+Print Assumptions t1_ps_to_midi_C4.
+
+Theorem t1_ps_to_midi_shift : forall s a o m da do,
+  T1_music.pitch_spelling_to_midi_pitch s (Some a) o = Some m ->
+  T1_music.pitch_spelling_to_midi_pitch s (Some (a + da)) (o + do) = Some (m + da + 12 * do).
+Proof. exact PV.Proofs.C12_t1.t1_ps_to_midi_shift. Qed.
+Print Assumptions t1_ps_to_midi_shift.
+
+Theorem t1_midi_ps_roundtrip : forall (m : Z),
+  exists s a o, T1_music.midi_pitch_to_pitch_spelling m = Some (s, a, o) /\ In s C12.steps7 /\
+                T1_music.pitch_spelling_to_midi_pitch s (Some a) o = Some m.
+Proof. exact PV.Proofs.C12_t1.t1_midi_ps_roundtrip. Qed.
+Print Assumptions t1_midi_ps_roundtrip.
+
+Theorem t1_step2pc_is_pitch_class : forall s a o m,
+  In s C12.steps7 ->
+  T1_music.pitch_spelling_to_midi_pitch s (Some a) o = Some m -> T1_music.step2pc s a = Some (m mod 12).
+Proof. exact PV.Proofs.C12_t1.t1_step2pc_is_pitch_class. Qed.
+Print Assumptions t1_step2pc_is_pitch_class.
+
+Theorem t1_key_name_rejects : forall f m,
+  ~ (-7 <= f <= 7) -> T1_music.fifths_mode_to_key_name f m = None.
+Proof. exact PV.Proofs.C12_t1.t1_key_name_rejects. Qed.
+Print Assumptions t1_key_name_rejects.
+
+Theorem t1_key_roundtrip : forall f md,
+  -7 <= f <= 7 ->
+  exists n, T1_music.fifths_mode_to_key_name f (pyval_of_mode md) = Some n /\
+            T1_music.key_name_to_fifths_mode n = Some (f, C12.mode_string md).
+Proof. exact PV.Proofs.C12_t1.t1_key_roundtrip. Qed.
+Print Assumptions t1_key_roundtrip.
+
+Theorem t1_mode_roundtrip : forall m c,
+  T1_music.key_mode_to_int m = Some c ->
+  T1_music.key_int_to_mode (PyInt c) = T1_music.key_int_to_mode m /\ T1_music.key_int_to_mode m <> None.
+Proof. exact PV.Proofs.C12_t1.t1_mode_roundtrip. Qed.
+Print Assumptions t1_mode_roundtrip.
+
+Theorem t1_clef_roundtrip : forall s c,
+  T1_music.clef_sign_to_int s = Some c -> T1_music.clef_int_to_sign c = Some s.
+Proof. exact PV.Proofs.C12_t1.t1_clef_roundtrip. Qed.
+Print Assumptions t1_clef_roundtrip.
+
+Theorem t1_note_midi_pitch : forall s a o,
+  T1_music.Note_midi_pitch (mk_note s a o) = C12.ps_to_midi s (alter_or_0 a) o.
+Proof. exact PV.Proofs.C12_t1.t1_note_midi_pitch. Qed.
+Print Assumptions t1_note_midi_pitch.
+
+Theorem t1_note_name_roundtrip : forall s a o n,
+  In s C12.steps7 -> -3 <= a <= 3 -> 0 <= o ->
+  T1_music.pitch_spelling_to_note_name s a o = Some n -> C12.parse_name n = Some (s, a, o).
+Proof. exact PV.Proofs.C12_t1.t1_note_name_roundtrip. Qed.
+Print Assumptions t1_note_name_roundtrip.
+
+Theorem t1_find_smallest_unit_odd_part : forall fuel divs u,
+  T1_music.find_smallest_unit fuel divs = Some u ->
+  u mod 2 = 1 /\ exists k, 0 <= k /\ divs = u * 2 ^ k.
+Proof. exact PV.Proofs.C12_t1.t1_find_smallest_unit_odd_part. Qed.
+Print Assumptions t1_find_smallest_unit_odd_part.
+
 (* ---- O5 over the reals (depends on the standard library's real-number axioms) ---- *)
 From PV Require Import Proofs.C12_real.
 From Coq Require Import Reals.
